@@ -8,7 +8,8 @@ PROPS = [f"C{i:02d}" for i in range(1, 21)]
 # Rules shared into further properties they are a necessary condition of (found by the seeded changes of round 3):
 # property -> [(new rule id, module, function, title)]
 SHARED = {
-    "C01": [("C01.R8", "c03", "r3_early_exits", "early exits key and forward exactly what was supplied"), ("C01.R9", "c11", "r4_connective_is_quantifier", "emitted union checks are bracketed, connectives are quantifiers")],
+    "C03": [("C03.R9", "c10", "r3_strategy_laws", "the dependent dispatcher checks only what the call supplies and decides as prescribed")],
+    "C01": [("C01.R10", "c10", "r3_strategy_laws", "a value-dependent method runs only when its own conditions hold"), ("C01.R8", "c03", "r3_early_exits", "early exits key and forward exactly what was supplied"), ("C01.R9", "c11", "r4_connective_is_quantifier", "emitted union checks are bracketed, connectives are quantifiers")],
     "C04": [("C04.R8", "c19", "r4_whole_value_stores", "cache reads do not consume; fills store whole values")],
     "C06": [("C06.R6", "c07", "r3", "the continuation branch consults what resolving the bare key stored"), ("C06.R7", "c14", "r2", "one key function on every path"), ("C06.R8", "c05", "r2", "every change propagates to every dependent")],
     "C07": [("C07.R11", "c08", "r1_self_references_found", "recurse / call_next symbols are found in globals and closure cells")],
